@@ -1213,21 +1213,30 @@ static void union_initializer(Token **rest, Token *tok, Initializer *init) {
   // Unlike structs, union initializers take only one initializer,
   // and that initializes the first union member by default.
   // You can initialize other member using a designated initializer.
-  if (equal(tok, "{") && equal(tok->next, ".")) {
-    Member *mem = struct_designator(&tok, tok->next, init->ty);
-    init->mem = mem;
-    designation(&tok, tok, init->children[mem->idx]);
-    *rest = skip(tok, "}");
+  if (equal(tok, "{")) {
+    tok = tok->next;
+    init->mem = init->ty->members;
+
+    for (int i = 0; !consume_end(rest, tok); i++) {
+      if (i > 0)
+        tok = skip(tok, ",");
+
+      if (equal(tok, ".")) {
+        Member *mem = struct_designator(&tok, tok, init->ty);
+        init->mem = mem;
+        designation(&tok, tok, init->children[mem->idx]);
+      } else if (i == 0) {
+        initializer2(&tok, tok, init->children[0]);
+      } else {
+        tok = skip_excess_element(tok);
+      }
+    }
     return;
   }
 
   init->mem = init->ty->members;
 
-  if (equal(tok, "{")) {
-    initializer2(&tok, tok->next, init->children[0]);
-    consume(&tok, tok, ",");
-    *rest = skip(tok, "}");
-  } else {
+  {
     initializer2(rest, tok, init->children[0]);
   }
 }
